@@ -353,24 +353,132 @@ theorem defer_exec_full (fuel : Nat) (env : Env) (f p last lo : BitVec 64) (head
         rcases wakeSpec_ctl r2 hi2 with hc | hc
         · simp only [hc]
           refine ⟨_, rfl, ?_⟩
-          trace_state
           refine ⟨by simp [dq], rfl, rfl, ?_, encPriv_lastIn _ _ _ _ _ _ _ hl2, ?_, ?_⟩
-          · rw [wakePriv_frame _ _ _ (by simp [dq, futexL])]; simp
-          · rw [encPriv_frame _ _ _ _ _ _ _ _ (by simp) (by simp) (by simp [dq, futexL]) (fun k => slot_ne_field dq _ _ k)]
+          · show wakePriv _ r2 (.field dq "head") = _
+            rw [wakePriv_frame _ _ _ (by simp [dq, futexL])]; simp
+          · show wakePriv _ r2 (.field dq "tail") = _
+            rw [encPriv_frame _ _ _ _ _ _ _ (.field dq "tail") (by simp) (by simp) (by simp [dq, futexL])
+              (fun k => slot_ne_field dq _ _ k)]
             exact v2
-          · rw [encPriv_frame _ _ _ _ _ _ _ _ (by simp) (by simp) (by simp [dq, futexL]) (fun k => slot_ne_field dq _ _ k)]
+          · show wakePriv _ r2 (.field dq "last_fct_out") = _
+            rw [encPriv_frame _ _ _ _ _ _ _ (.field dq "last_fct_out") (by simp) (by simp) (by simp [dq, futexL])
+              (fun k => slot_ne_field dq _ _ k)]
             exact v3
         · simp only [hc]
           refine ⟨_, rfl, ?_⟩
-          trace_state
           refine ⟨by simp [dq], rfl, rfl, ?_, encPriv_lastIn _ _ _ _ _ _ _ hl2, ?_, ?_⟩
-          · rw [wakePriv_frame _ _ _ (by simp [dq, futexL])]; simp
-          · rw [encPriv_frame _ _ _ _ _ _ _ _ (by simp) (by simp) (by simp [dq, futexL]) (fun k => slot_ne_field dq _ _ k)]
+          · show wakePriv _ r2 (.field dq "head") = _
+            rw [wakePriv_frame _ _ _ (by simp [dq, futexL])]; simp
+          · show wakePriv _ r2 (.field dq "tail") = _
+            rw [encPriv_frame _ _ _ _ _ _ _ (.field dq "tail") (by simp) (by simp) (by simp [dq, futexL])
+              (fun k => slot_ne_field dq _ _ k)]
             exact v2
-          · rw [encPriv_frame _ _ _ _ _ _ _ _ (by simp) (by simp) (by simp [dq, futexL]) (fun k => slot_ne_field dq _ _ k)]
+          · show wakePriv _ r2 (.field dq "last_fct_out") = _
+            rw [encPriv_frame _ _ _ _ _ _ _ (.field dq "last_fct_out") (by simp) (by simp) (by simp [dq, futexL])
+              (fun k => slot_ne_field dq _ _ k)]
             exact v3
-      · sorry
+      · -- the assertion `head - tail == 0` fails: `abort()`; nothing is claimed, the run does not fail in the IR
+        have ht' : ¬ ((head : Int) - (w2.toNat : Int) = 0) := by
+          intro h; apply ht; unfold wv; congr 1; omega
+        match r2, hi2 with
+        | [], _ =>
+          exec_simp [v1, wv, ht']
+          intros; omega
+        | a :: r3, hi2 =>
+          have hi3 : IntInp r3 := fun v hv => hi2 v (by simp [hv])
+          exec_simp [v1, wv, ht']
+          generalize hP : exec fuel encPart _ _ = rp
+          obtain ⟨vars, rfl⟩ := encPart_exec f p last head r3 hP (by simp [hf]) (by simp [hp]) (by simp) hl2 hi3
+          rcases wakeSpec_ctl r3 hi3 with hc | hc <;> simp [hc] <;> (intros; omega)
   · simp [hn, dq]
   · simp [hn, dq]
+
+/-! ## the flush against the model -/
+
+/-- **`rcu_defer_barrier_thread()` ⊑ `Defer.runQ` on the own queue up to the own `head`** (the model's
+`flushSnapshot ; gp ; flushRun`): a completed flush whose slot loads returned the content of the model's ring has made exactly
+the calls `runQ` decodes, in order, and leaves `last_fct_out` as the model; `synchronize_rcu()` is called before the first
+callback iff something is queued. -/
+theorem flushSpec_model (fuel : Nat) (x : TState) (now : Nat) (inp : List Val)
+    (hn : (flushSpec fuel x.head x.tail x.lastOut inp).ctl = .normal)
+    (hl : LoadsFrom dq x.q (flushSpec fuel x.head x.tail x.lastOut inp).events) :
+    ∃ x' calls, runQ Cfg.real x x.head now = some (x', calls) ∧
+      callsOf (flushSpec fuel x.head x.tail x.lastOut inp).events = calls.map callV ∧
+      x'.lastOut = (flushSpec fuel x.head x.tail x.lastOut inp).lo ∧ x'.tail = x.head ∧ x'.head = x.head ∧
+      x'.lastIn = x.lastIn ∧ x'.q = x.q ∧
+      (x.head ≠ x.tail → ∃ l s pre, (flushSpec fuel x.head x.tail x.lastOut inp).events = lockE l :: syncE s :: pre) := by
+  match inp, hn, hl with
+  | [], hn, _ => simp [flushSpec] at hn
+  | [l], hn, _ => simp [flushSpec] at hn
+  | l :: s :: r, hn, hl =>
+    simp only [flushSpec] at hn hl ⊢
+    by_cases hHT : x.head = x.tail
+    · simp only [hHT, if_true] at hn hl ⊢
+      refine ⟨{ x with tail := x.tail, lastOut := x.lastOut, invoked := x.invoked ++ [] }, [],
+        ?_, by simp [callsOf, lockE, unlockE], rfl, rfl, hHT, rfl, rfl, fun h => absurd rfl h⟩
+      simp [runQ, runLoop]
+    · simp only [hHT, if_false] at hn hl ⊢
+      by_cases hS : (loopSpec dq x.head fuel x.tail x.lastOut r []).ctl = .normal
+      · simp only [hS, if_true] at hn hl ⊢
+        cases hinp : (loopSpec dq x.head fuel x.tail x.lastOut r []).inp with
+        | nil => simp [hinp] at hn
+        | cons u r2 =>
+          simp only [hinp] at hl ⊢
+          have hl' : LoadsFrom dq x.q (loopSpec dq x.head fuel x.tail x.lastOut r []).events := by
+            apply hl.mono; intro e he; simp [he]
+          obtain ⟨calls, c1, c2⟩ := loopSpec_model dq x.q x.head fuel x.tail x.lastOut r [] hS hl'
+          obtain ⟨-, hlen⟩ := runLoop_len _ _ _ _ _ _ _ _ _ c1
+          have c1' := runLoop_mono _ _ _ _ _ _ _ c1 (x.head - x.tail) (by omega)
+          refine ⟨{ x with tail := x.head, lastOut := (loopSpec dq x.head fuel x.tail x.lastOut r []).lo,
+                           invoked := x.invoked ++ calls.map fun fp => ⟨fp.1, fp.2, now⟩ }, calls,
+            by simp only [runQ, c1'], ?_, rfl, rfl, rfl, rfl, rfl, fun _ => ⟨l, s, _, rfl⟩⟩
+          simp [callsOf, lockE, syncE, unlockE, callsOf_append, c2]
+      · simp [hS] at hn
+
+/-- **`_defer_rcu(fct, p)`, full path ⊑ `Defer` model** (`enq` answers `full`; `flushSnapshot ; gp ; flushRun` of the own
+queue; `enq`).  `x` = the model's thread state, related to the private view both as owner (`RelO`) and – under the mutex – as
+runner of its own queue (`RelR`); the loaded `tail` is at the threshold (`needFlush` for it).  A run that ends inside the flush
+is `ld tail` followed by that prefix of `flushSpec`.  When the flush completes and its loads returned the ring's content, its
+calls are exactly those of `runQ x head` (state `x1` afterwards); if the re-load of `tail` then returns `head`, the rest of the
+run is the encode part for `enqT x1`: the model's words at the slots from `head`, `wmb`, the new `head`, `mb`,
+`wake_up_defer()`, and the private view is the model's state again, for both roles. -/
+theorem defer_rcu_full_model (fuel : Nat) (env : Env) (x : TState) (f p : BitVec 64) (tl now : Nat) (rest : List Val)
+    (hf : env.vars "fct" = some (wv f)) (hp : env.vars "p" = some (wv p))
+    (hr : RelO env x) (hrr : RelR env dq x) (hfull : needFlush Cfg.real { x with tail := tl } = true) (hw : WordInp rest) :
+    ∃ out, exec fuel Gen.Src.«_defer_rcu» env (.int (tl : Int) :: rest) = .ok out ∧
+      ((flushSpec fuel x.head x.tail x.lastOut rest).ctl ≠ .normal →
+        out.events = .ld (.field dq "tail") (.int (tl : Int)) 0 :: (flushSpec fuel x.head x.tail x.lastOut rest).events ∧
+        out.ctl = (flushSpec fuel x.head x.tail x.lastOut rest).ctl) ∧
+      ((flushSpec fuel x.head x.tail x.lastOut rest).ctl = .normal →
+        LoadsFrom dq x.q (flushSpec fuel x.head x.tail x.lastOut rest).events →
+        ∃ x1 calls, runQ Cfg.real x x.head now = some (x1, calls) ∧
+          callsOf (flushSpec fuel x.head x.tail x.lastOut rest).events = calls.map callV ∧
+          ∀ r2, (flushSpec fuel x.head x.tail x.lastOut rest).inp = .int (x.head : Int) :: r2 →
+            out.events = .ld (.field dq "tail") (.int (tl : Int)) 0 ::
+              ((flushSpec fuel x.head x.tail x.lastOut rest).events ++
+                .ld (.field dq "tail") (.int (x.head : Int)) 0 :: (stores dq x.head (enqT Cfg.real x1 f p now).2 ++
+                [.fence .wmb, .st (.field dq "head") (.int ((enqT Cfg.real x1 f p now).1.head : Int)) 0, .fence .mb] ++
+                (wakeSpec r2).1)) ∧
+            out.inp = (wakeSpec r2).2.1 ∧ out.ctl = (wakeSpec r2).2.2 ∧
+            RelO out.env (enqT Cfg.real x1 f p now).1 ∧ RelR out.env dq (enqT Cfg.real x1 f p now).1) := by
+  have hfull' : (4094 : Int) ≤ (x.head : Int) - (tl : Int) := by
+    have h : Cfg.real.size - 2 ≤ x.head - tl := by simpa [needFlush] using hfull
+    have hs : Cfg.real.size = 4096 := by decide
+    rw [hs] at h
+    omega
+  obtain ⟨out, hE, h1, h2⟩ := defer_exec_full fuel env f p x.lastIn x.lastOut x.head x.tail tl rest hf hp hr.1 hr.2
+    hrr.1 hrr.2 hfull' hw
+  refine ⟨out, hE, fun hn => ⟨(h1 hn).1, (h1 hn).2.2⟩, ?_⟩
+  intro hn hl
+  obtain ⟨x1, calls, m1, m2, m3, m4, m5, m6, m7, -⟩ := flushSpec_model fuel x now rest hn hl
+  refine ⟨x1, calls, m1, m2, ?_⟩
+  intro r2 hinp
+  obtain ⟨e1, e2, e3, p1, p2, p3, p4⟩ := (h2 hn).2 r2 hinp
+  refine ⟨?_, e2, e3, ⟨?_, ?_⟩, ⟨?_, ?_⟩⟩
+  · rw [e1]; simp [enqT, m5, m6]
+  · rw [p1]; simp [enqT, m5, m6]
+  · rw [p2]; simp [enqT, m6]
+  · rw [p3]; simp [enqT, m4]
+  · rw [p4]; simp [enqT, m3]
 
 end UrcuVerif.Src.DeferR
